@@ -434,35 +434,133 @@ def _binary_arm(body, array_field):
     return None, None
 
 
+NODEKINDS = ("Root", "Manner", "Laryngeal", "Place", "Labial", "Coronal", "Dorsal", "Pharyngeal")
+SIGNS = ("Positive", "Negative")
+
+
+def _enum_val(pat_path):
+    for pre in ("asca::parser::BinMod::", "asca::seg::NodeKind::"):
+        if pat_path.startswith(pre):
+            return pat_path[len(pre):]
+    return None
+
+
+def _pat_matches(pat, val):
+    """does a pattern accept the concrete value `val` (an enum variant name, or a tuple of them)?  None = unknown"""
+    k = pat.get("p")
+    if k in ("wild", "bind"):
+        return True
+    if k == "ref":
+        return _pat_matches(pat["sub"], val)
+    if k == "or":
+        rs = [_pat_matches(q, val) for q in pat["pats"]]
+        return None if any(x is None for x in rs) and not any(x is True for x in rs) else any(x is True for x in rs)
+    if k in ("path", "ts"):
+        v = _enum_val(pat.get("path") or "")
+        return None if v is None else v == val
+    if k == "tup":
+        if not isinstance(val, tuple) or len(val) != len(pat["pats"]):
+            return None
+        rs = [_pat_matches(q, x) for q, x in zip(pat["pats"], val)]
+        return None if any(x is None for x in rs) else all(rs)
+    return None
+
+
+def _table(expr, hid_val, guard_val, canon_leaf):
+    """evaluate nested matches over the tracked enum locals (sign, node kind) for one concrete assignment"""
+    e = hirq.strip(expr)
+    while True:
+        if isinstance(e, dict) and e.get("e") == "block" and not e.get("stmts") and e.get("tail") is not None:
+            e = hirq.strip(e["tail"])
+            continue
+        break
+    if isinstance(e, dict) and e.get("e") == "match":
+        sc = hirq.strip(e["scrut"])
+
+        def val_of(x):
+            x = hirq.strip(x)
+            while isinstance(x, dict) and x.get("e") == "unary" and x.get("op") == "Deref":
+                x = hirq.strip(x["a"])
+            if x.get("e") == "path" and x.get("hid") in hid_val:
+                return hid_val[x["hid"]]
+            if x.get("e") == "tup":
+                vs = tuple(val_of(y) for y in x["items"])
+                return None if any(v is None for v in vs) else vs
+            return None
+        v = val_of(sc)
+        if v is not None:
+            for arm in e["arms"]:
+                m = _pat_matches(arm["pat"], v)
+                if m is None:
+                    return "?unreadable pattern at line %s" % arm.get("ln")
+                if not m:
+                    continue
+                if arm.get("guard") is not None:
+                    g = canon_leaf(arm["guard"])
+                    if not guard_val.setdefault(g, guard_val.get("*default*", True)):
+                        continue
+                return _table(arm["body"], hid_val, guard_val, canon_leaf)
+            return "?no arm"
+    if isinstance(e, dict) and e.get("e") == "if" and hirq.strip(e["cond"]).get("e") != "letcond":
+        g = canon_leaf(e["cond"])
+        if guard_val.setdefault(g, guard_val.get("*default*", True)):
+            return _table(e["then"], hid_val, guard_val, canon_leaf)
+        return _table(e["else"], hid_val, guard_val, canon_leaf) if e.get("else") is not None else "()"
+    return canon_leaf(e)
+
+
 def shr4(ctx):
     """A deromaniser output `x > f:[+labial, +round]` must build the segment that the rule `f > [+labial, +round]` builds:
-    the Binary-modifier arms of Word::alias_apply_mods (nodes loop and feats loop) are the same code as those of
-    Segment::apply_seg_mods, up to the receiver and the error type."""
+    for every sign and every node kind, Word::alias_apply_mods does to the segment what Segment::apply_seg_mods does
+    (which error, which setter with which arguments, under which guard) -- compared as decision tables, so the two
+    functions may nest their matches differently."""
     from engine_pol import Canon
-    r = RuleResult("SHR-4", "Word::alias_apply_mods applies binary node / feature modifiers with the same code as Segment::apply_seg_mods (same guards, same setters, same order; only receiver and error type differ)", floor=2)
+    r = RuleResult("SHR-4", "Word::alias_apply_mods applies binary node / feature modifiers like Segment::apply_seg_mods: for every sign x node kind (and guard outcome) the same action -- same error variant, same setter call, same arguments", floor=22)
     lib = ctx.lib
     A = ctx.fn(lib, "asca::word::Word::alias_apply_mods")
     S = ctx.fn(lib, "asca::seg::Segment::apply_seg_mods")
+
+    def canon_leaf(e):
+        c = Canon()
+        t = json.dumps(c.expr(e), sort_keys=True, default=str)
+        return re.sub(r"asca::error::runtime::(Alias|Rule)RuntimeError::", "ERR::", t)
+
+    def tables(fb, arr):
+        arm, m = _binary_arm(fb, arr)
+        if arm is None:
+            raise AnchorMissing("SHR-4: the ModKind::Binary arm of the loop over `%s` was not found in %s" % (arr, fb.path.rsplit("::", 1)[-1]))
+        # the sign local bound by `ModKind::Binary(bm)`; the node-kind local(s): every local of type NodeKind in the function
+        sign_h = {q["hid"] for q in hirq.walk_pats(arm["pat"]) if q.get("p") == "bind" and "hid" in q}
+        node_h = {x["hid"] for x in hirq.walk(fb.hir["body"]) if x["e"] == "path" and "hid" in x and (x.get("ty") or "").lstrip("&") == "asca::seg::NodeKind"}
+        out = {}
+        for sg in SIGNS:
+            kinds = NODEKINDS if arr == "nodes" else (None,)
+            for nk in kinds:
+                for gv in (True, False):
+                    hv = {h: sg for h in sign_h}
+                    hv.update({h: nk for h in node_h} if nk else {})
+                    gmap = {"*default*": gv}
+                    leaf = _table(arm["body"], hv, gmap, canon_leaf)
+                    used_guard = len(gmap) > 1
+                    if not used_guard and gv is False:
+                        continue
+                    out[(sg, nk, gv if used_guard else None)] = leaf
+        return out, arm, m
+
     for arr in ("nodes", "feats"):
-        aa, am = _binary_arm(A, arr)
-        sa, sm = _binary_arm(S, arr)
-        if aa is None or sa is None:
-            raise AnchorMissing("SHR-4: the ModKind::Binary arm of the loop over `%s` was not found in %s" % (arr, "alias_apply_mods" if aa is None else "apply_seg_mods"))
-        ca, cs = Canon(), Canon()
-        ja = json.dumps({"pat": ca.pat(aa["pat"]), "body": ca.expr(aa["body"])}, sort_keys=True, default=str)
-        js = json.dumps({"pat": cs.pat(sa["pat"]), "body": cs.expr(sa["body"])}, sort_keys=True, default=str)
-        norm = lambda t: re.sub(r"asca::error::runtime::(Alias|Rule)RuntimeError::", "ERR::", t)
-        same = norm(ja) == norm(js) and ca.pol == cs.pol
-        where = ""
-        if not same:
-            # name the first differing constructor / call for the message
-            ta, ts = norm(ja), norm(js)
-            i = next((k for k, (x, y) in enumerate(zip(ta, ts)) if x != y), min(len(ta), len(ts)))
-            where = " (first difference near `%s` vs `%s`)" % (ta[max(0, i - 40):i + 40].replace('"', ""), ts[max(0, i - 40):i + 40].replace('"', ""))
-        r.inst("binary `%s` modifiers: alias_apply_mods and apply_seg_mods run the same arm" % arr, fn_loc(A, aa["pat"].get("ln") or am.get("ln")), "ok" if same else "report")
-        if not same:
-            r.report("SHR-4|%s" % arr, fn_loc(A, am.get("ln")), A.path,
-                     "the deromaniser applies binary %s modifiers differently from the rule interpreter%s: text `s` aliased to `X:[mods]` no longer behaves as if the segment `X` with those modifiers had been produced by a rule" % (arr, where))
+        ta, aa, am = tables(A, arr)
+        ts, sa, sm = tables(S, arr)
+        for key in sorted(set(ta) | set(ts), key=str):
+            sg, nk, gv = key
+            la, ls = ta.get(key), ts.get(key)
+            what = "%s%s%s" % ("+" if sg == "Positive" else "-", nk or "feature", "" if gv is None else (" (node absent)" if gv else " (node present)"))
+            unread = [x for x in (la, ls) if isinstance(x, str) and x.startswith("?")]
+            ok = la == ls and not unread
+            r.inst("binary %s modifier %s: same action on the alias side and the rule side" % (arr[:-1], what), fn_loc(A, am.get("ln")), "ok" if ok else "report")
+            if not ok:
+                r.report("SHR-4|%s|%s|%s%s" % (arr, sg, nk or "-", "" if gv is None else "|guard=%s" % gv), fn_loc(A, am.get("ln")), A.path,
+                         "for %s the deromaniser (alias_apply_mods) and the rule interpreter (apply_seg_mods) do different things%s: text `s` aliased to `X:[mods]` no longer behaves as if the segment had been produced by a rule"
+                         % (what, " (%s)" % unread[0] if unread else ""))
     return r
 
 
@@ -540,7 +638,7 @@ def syn3(ctx):
     'is this character a Greek alpha letter?' it must ask 'or a Latin capital?' in the same breath: as direct members of
     the same and/or chain with the same sign. An extra condition glued to only one of the two (`greek || latin && ..`)
     makes `[-Aplace]` and `[-αplace]` lex differently."""
-    r = RuleResult("SYN-3", "in the rule lexer every test for a Greek alpha letter ('α'..='ω') has the Latin-capital test on the same subject as a direct sibling in the same and/or chain, with the same sign (Greek and Latin alpha names are interchangeable)", floor=2)
+    r = RuleResult("SYN-3", "in the rule lexer every test for a Greek alpha letter ('α'..='ω') has the Latin-capital test on the same subject as a direct sibling in the same and/or chain, with the same sign (Greek and Latin alpha names are interchangeable)", floor=1)
     lib = ctx.lib
     n = 0
     for b in lib.bodies:
@@ -582,8 +680,8 @@ def syn3(ctx):
             if not ok:
                 r.report("SYN-3|%s|greek#%d" % (b.path, k), loc, b.path,
                          "the test for a Greek alpha letter on `%s` is not paired with the Latin-capital test: %s -- `[-Aplace]` and `[-αplace]` are lexed differently although the manual makes Latin and Greek alpha names interchangeable" % (_subject(g), why))
-    if n < 2:
-        raise AnchorMissing("SYN-3: %d Greek-alpha class tests in the rule lexer (expected >= 2)" % n)
+    if n < 1:
+        raise AnchorMissing("SYN-3: no Greek-alpha class test ('α'..='ω') in the rule lexer")
     r.analysed = {"greek_class_tests": n}
     return r
 
@@ -765,3 +863,118 @@ def _let_inits(body, e):
         if n["e"] == "let" and n.get("init") is not None and any(q.get("hid") in hs for q in hirq.walk_pats(n["pat"]) if q.get("p") == "bind"):
             out.append(n["init"])
     return out
+
+
+# ---------------------------------------------------------------- FLW-13: a failed trial of the rest puts the cursor back
+
+def flw13(ctx):
+    """`(X,M:N)` is matched lazily: after the mandatory repetitions the rest of the environment is tried; if it fails one
+    more X is consumed and the rest is tried again. A trial of the rest moves the cursor as far as it got. Before the
+    next repetition of X the cursor must be put back to where the last repetition ended -- otherwise the next X is looked
+    for behind a partially matched remainder and `_(C,0:2)ai` accepts `a|kakai`."""
+    r = RuleResult("FLW-13", "context_match_option: every path from a trial of the remaining context (context_match) to the next repetition of the optional (match_opt_states) passes a write of the cursor `*pos` (the failed trial is undone)", floor=2)
+    lib = ctx.lib
+    b = ctx.fn(lib, "asca::subrule::SubRule::context_match_option")
+    names = b.param_names or []
+    if "pos" not in names:
+        raise AnchorMissing("FLW-13: context_match_option has no parameter `pos`")
+    pl = names.index("pos") + 1
+    T = [i for i, t in b.calls() if (callee_path(t) or "") == "asca::subrule::SubRule::context_match"]
+    M = {i for i, t in b.calls() if (callee_path(t) or "") == "asca::subrule::SubRule::match_opt_states"}
+    if not T or not M:
+        raise AnchorMissing("FLW-13: context_match_option: %d trials of the rest, %d repetitions of the optional" % (len(T), len(M)))
+    W = set()
+    for bi, bl in enumerate(b.blocks):
+        for s in bl["s"]:
+            if s["k"] == "assign" and s["lhs"]["l"] == pl and s["lhs"]["p"] and s["lhs"]["p"][0] == "*":
+                W.add(bi)
+    rets = {i for i, bl in enumerate(b.blocks) if bl["t"]["k"] == "return"}
+    for k, t in enumerate(T):
+        nxt = b.blocks[t]["t"].get("t")
+        reach = b.cfg.reachable_from(nxt, avoid=W | rets) if nxt is not None else set()
+        hit = sorted(x for x in reach if x in M)
+        loc = ":".join((b.blocks[t]["t"].get("loc") or b.loc).split(":")[:2])
+        r.inst("context_match_option: trial #%d of the remaining context is undone (cursor written) before any further repetition of the optional" % k, loc, "ok" if not hit else "report")
+        if hit:
+            ml = ":".join((b.blocks[hit[0]]["t"].get("loc") or b.loc).split(":")[:2])
+            r.report("FLW-13|context_match_option|trial#%d" % k, loc, b.path,
+                     "after this trial of the rest of the environment the next repetition of the optional (%s) can be reached without `*pos` being put back: the repetition is looked for behind the partially matched remainder -- `a > e / _(C,0:2)ai` rewrites the first a of `akakai`, its expansion `:{_ai, _Cai, _CCai}:` does not" % ml)
+    r.analysed = {"trials": len(T), "repetition_sites": len(M), "cursor_writes": len(W)}
+    return r
+
+
+# ---------------------------------------------------------------- ENV-5: nested element lists honour the direction
+
+ENV5_EXCEPTIONS = {
+    ("asca::subrule::SubRule::context_match_set", "set"): "a set lists alternatives, each matched alone at the same position: their order is a priority, not a direction",
+}
+
+
+def env5(ctx):
+    """The part of an environment before the underline is matched right to left over the reversed word: the top-level
+    element list is reversed by the caller. Every matcher that receives the direction (`forwards`) and scans a *nested*
+    element list itself -- the items of a structure `<..>`, the elements of an optional `(..)` -- must reverse that list
+    when it runs backwards, or `#(pt)_` looks for `tp`."""
+    r = RuleResult("ENV-5", "every SubRule matcher that takes the direction `forwards` and scans a nested list of elements itself reverses that list when !forwards (structures, optionals); sets (alternatives) are the one named exception", floor=2)
+    lib = ctx.lib
+    n = 0
+    for b in lib.bodies:
+        if b.in_test_mod() or not b.hir or b.kind == "closure" or not b.path.startswith("asca::subrule::SubRule::"):
+            continue
+        names, tys = b.param_names or [], b.param_tys or []
+        if "forwards" not in names:
+            continue
+        root = b.hir["body"]
+        params = b.hir.get("params") or []
+        hid_of = {}
+        for p in params:
+            for q in hirq.walk_pats(p):
+                if q.get("p") == "bind" and "hid" in q:
+                    hid_of[q.get("name")] = q["hid"]
+        fw = hirq.derived_hids(root, {hid_of.get("forwards")})
+        idx_params = {hid_of[nm] for nm, ty in zip(names, tys) if ty.replace(" ", "") == "&mutusize" and nm in hid_of}
+        idx_derived = hirq.derived_hids(root, idx_params) if idx_params else set()
+        fresh_locals = {q["hid"] for x in hirq.walk(root) if x["e"] == "let" for q in hirq.walk_pats(x["pat"]) if q.get("p") == "bind" and "hid" in q} - idx_derived
+        for nm, ty in zip(names, tys):
+            if "[asca::parser::Item]" not in ty and "Vec<asca::parser::Item>" not in ty:
+                continue
+            if nm not in hid_of:
+                continue
+            L = hirq.derived_hids(root, {hid_of[nm]})
+            mentions = lambda e: any(y["e"] == "path" and y.get("hid") in L for y in hirq.walk(e))
+            scans = False
+            for x in hirq.walk(root):
+                if x["e"] == "mcall" and (x.get("def") or "").endswith("SubRule::context_match") and len(x["args"]) >= 2 and mentions(x["args"][0]):
+                    i0 = hirq.strip(x["args"][1])
+                    while isinstance(i0, dict) and i0.get("e") in ("addr", "unary"):
+                        i0 = hirq.strip(i0["a"])
+                    if i0.get("e") == "path" and i0.get("hid") in fresh_locals:
+                        scans = True
+                if x["e"] == "match" and "ForLoop" in str(x.get("src")) and mentions(x.get("scrut") or {}):
+                    scans = True
+                if x["e"] == "index" and mentions(x["a"]) and not any(y["e"] == "path" and y.get("hid") in idx_derived for y in hirq.walk(x["i"])):
+                    scans = True
+            if not scans:
+                continue
+            n += 1
+            # a reversal of the list under a test of the direction
+            handled = False
+            for x in hirq.walk(root):
+                if x["e"] != "if" or not any(y["e"] == "path" and y.get("hid") in fw for y in hirq.walk(x["cond"])):
+                    continue
+                for y in hirq.walk(x):
+                    if y["e"] == "mcall" and y["name"] in ("reverse", "rev") and mentions(y["recv"]):
+                        handled = True
+            exc = ENV5_EXCEPTIONS.get((b.path, nm))
+            short = b.path.rsplit("::", 1)[-1]
+            ok = handled or exc is not None
+            r.inst("%s scans its list `%s` itself: %s" % (short, nm, "reversed when !forwards" if handled else ("exception: " + exc if exc else "never reversed")), fn_loc(b), "ok" if ok else "report")
+            if exc and not handled:
+                r.exceptions.append("ENV-5 %s(%s): %s" % (short, nm, exc))
+            if not ok:
+                r.report("ENV-5|%s|%s" % (short, nm), fn_loc(b), b.path,
+                         "%s receives the matching direction and walks the nested element list `%s` front to back in both directions: in a before-context (matched right to left over the reversed word) the elements are tried in the wrong order -- `a > e / #(pt)_` fires on `tpa`, not on `pta`" % (short, nm))
+    if n < 2:
+        raise AnchorMissing("ENV-5: %d direction-taking matchers scan a nested list (expected >= 2: structure, optional)" % n)
+    r.analysed = {"nested_list_scanners": n}
+    return r
